@@ -173,6 +173,7 @@ struct SimFile {
 };
 SimFile *file_lookup(const std::string &path);
 const std::vector<SimFile> &files();
+std::string heap_overrun_take();  // "" or a description of a heap block (allocated by real code) that was written past its end
 bool path_writable(const std::string &path);  // would fopen(path, "w") succeed in the simulated file system
 
 // ---- streams ----------------------------------------------------------------------------
